@@ -12,6 +12,7 @@ package main
 import (
 	"bytes"
 	"encoding"
+	"encoding/json"
 	"flag"
 	"fmt"
 	"math/rand"
@@ -130,6 +131,76 @@ func quoteField(wr *hx.Writer, kind string, s []byte) {
 	t2, _ := r2.(encoding.TextMarshaler).MarshalText()
 	out["same"] = want == got && bytes.Equal(t1, t2)
 	wr.Put(out)
+}
+
+// lines: round trip of whole data-file lines (C09): text -> DecodeLn -> MarshalText = t1 -> DecodeLn -> MarshalText = t2
+func init() { register("lines", linesMain) }
+
+func linesMain(args []string) {
+	fs := flag.NewFlagSet("lines", flag.ExitOnError)
+	in := fs.String("in", "", "input ndjson: {\"text\": line}")
+	outp := fs.String("out", "trace.ndjson", "output ndjson")
+	fs.Parse(args)
+	wr := hx.NewWriter(*outp)
+	defer wr.Close()
+	n := 0
+	hx.ReadLines(*in, func(raw []byte) {
+		var e struct {
+			Text string `json:"text"`
+			Tag  string `json:"tag"`
+		}
+		if err := json.Unmarshal(raw, &e); err != nil {
+			hx.Die("bad input line: %v", err)
+		}
+		n++
+		out := map[string]interface{}{"ev": "line", "text": e.Text, "tag": e.Tag, "t1": "", "t2": "", "same": false, "err": ""}
+		func() {
+			defer func() {
+				if p := recover(); p != nil {
+					out["err"] = fmt.Sprintf("panic: %v", p)
+				}
+			}()
+			c := new(dnsdata.Codec)
+			c.Serial = 1700000000
+			c.Acc.Ranger.Enable()
+			line := []byte(e.Text)
+			want, err := recsOf(c, line)
+			if err != nil {
+				out["err"] = "original line: " + err.Error()
+				return
+			}
+			r, err := c.DecodeLn(line)
+			if err != nil {
+				out["err"] = err.Error()
+				return
+			}
+			t1, err := r.(encoding.TextMarshaler).MarshalText()
+			if err != nil {
+				out["err"] = "marshal: " + err.Error()
+				return
+			}
+			out["t1"] = string(t1)
+			got, err := recsOf(c, t1)
+			if err != nil {
+				out["err"] = "normal form: " + err.Error()
+				return
+			}
+			r2, err := c.DecodeLn(t1)
+			if err != nil {
+				out["err"] = "normal form: " + err.Error()
+				return
+			}
+			t2, err := r2.(encoding.TextMarshaler).MarshalText()
+			if err != nil {
+				out["err"] = "marshal of the normal form: " + err.Error()
+				return
+			}
+			out["t2"] = string(t2)
+			out["same"] = want == got
+		}()
+		wr.Put(out)
+	})
+	fmt.Printf("{\"lines\":%d}\n", n)
 }
 
 func labelOK(s []byte) bool {
